@@ -529,6 +529,7 @@ class Program:
 
     def _enum_info(self, ci: ClassInfo) -> EnumInfo:
         members: Dict[str, Any] = {}
+        prop_alias: Dict[str, Optional[str]] = {}
         auto_n = 0
         for st in ci.node.body:
             if isinstance(st, ast.Assign) and len(st.targets) == 1 and isinstance(st.targets[0], ast.Name):
@@ -538,6 +539,16 @@ class Program:
                 if isinstance(st.value, ast.Call) and ast.unparse(st.value.func).split(".")[-1] == "auto":
                     auto_n += 1
                     members[nm] = auto_n
+                elif isinstance(st.value, ast.Call) and isinstance(st.value.func, ast.Name) and st.value.func.id == "property" and self.resolve_name(ci.module, "property") is None:
+                    # a descriptor in an enum body is not a member: `name = property(attrgetter("_x"))` is the read-only
+                    # accessor `@property def name(self): return self._x`
+                    g = st.value.args[0] if st.value.args else next((k.value for k in st.value.keywords if k.arg == "fget"), None)
+                    r = self.resolve_expr(ci.module, g.func) if isinstance(g, ast.Call) else None
+                    if (r == ("ext", "operator.attrgetter") and len(g.args) == 1 and not g.keywords and isinstance(g.args[0], ast.Constant)  # type: ignore[union-attr]
+                            and isinstance(g.args[0].value, str) and g.args[0].value.isidentifier()):  # type: ignore[union-attr]
+                        prop_alias[nm] = g.args[0].value  # type: ignore[union-attr]
+                    else:
+                        prop_alias[nm] = None
                 else:
                     members[nm] = self.fold(ci.module, st.value)
         attrs: Dict[str, Any] = {}
@@ -598,6 +609,8 @@ class Program:
                 attrs[pname] = attrs[body[0].value.attr]
             else:
                 attrs[pname] = ("opaque", pname)
+        for pname, src in prop_alias.items():
+            attrs[pname] = attrs[src] if src is not None and src in attrs else ("opaque", pname)
         return EnumInfo(members, attrs)
 
     # ------------------------------------------------------------------
